@@ -169,6 +169,25 @@ func (f *Format) MarkSubgroup(p ocurve.Pt) {
 	f.mu.Unlock()
 }
 
+// Learn records a curve point constructed by the caller: its y is a square root of x^3+ax+b (checked), so the
+// reference decoder need not recompute it; sub=true additionally records subgroup membership (for [k]G).
+func (f *Format) Learn(p ocurve.Pt, sub bool) {
+	if p.Inf {
+		return
+	}
+	if !f.C.IsOnCurve(p) {
+		panic("ocodec: Learn on a point that is not on the curve")
+	}
+	k := string(f.Ser(p.X))
+	f.mu.Lock()
+	f.roots[k] = rootEntry{f.C.F.Copy(p.Y), true}
+	f.mu.Unlock()
+	if sub {
+		f.MarkSubgroup(p)
+		f.MarkSubgroup(f.C.Neg(p))
+	}
+}
+
 // Root returns a square root of x^3+ax+b (memoised), ok=false when none exists.
 func (f *Format) Root(x ofield.El) (ofield.El, bool) {
 	k := string(f.Ser(x))
@@ -335,7 +354,14 @@ func (f *Format) decode(b []byte, fl Flags, subgroup bool) Verdict {
 		p = ocurve.Pt{X: x, Y: y}
 	}
 	if subgroup && !f.InSubgroup(p) {
-		return Verdict{Why: "not-in-subgroup"}
+		why := "not-in-subgroup"
+		switch d := f.C.Double(p); {
+		case d.Inf:
+			why += "(order-2)"
+		case f.C.Add(d, p).Inf:
+			why += "(order-3)"
+		}
+		return Verdict{Why: why}
 	}
 	return Verdict{OK: true, P: p, N: n, Comp: fl.Compressed}
 }
